@@ -10,7 +10,7 @@ Use from a property script (two lines):
 Standalone: see lean/Fv/Chan/SpscB.README.md
 """
 import os, re, subprocess
-from vlib import VERIF
+from vlib import VERIF, CHAN_RUSTFLAGS
 
 THEOREMS = [l.strip() for l in open(os.path.join(VERIF, "props", "spscb.theorems")) if l.strip() and not l.startswith("#")]
 MODULE = "Fv.Props.SpscB"
@@ -54,7 +54,7 @@ def tie(ctx, cases=None):
     the scheduler shim must be an enabled step of the model (same object role, value read and written,
     ordering at least as strong), every call/return must match."""
     drv = ctx.lean_exe("fvdrv_spscb")
-    h = ctx.cargo_build("chan", "chanh", rustflags="--cfg loom")
+    h = ctx.cargo_build("chan", "chanh", rustflags=CHAN_RUSTFLAGS)
     ctx.assumptions += [a for a in ASSUMPTIONS if a not in ctx.assumptions]
     if ctx.replay:
         return [ctx.tie("spscb-replay", [h, "run", ctx.replay, "--atomics"], [drv])]
